@@ -80,7 +80,8 @@ def plans_for(rng, ops, phm, tier, base):
         if len(fs) >= 2:
             plans.append(("multi", fs))
     # persistent / class-addressed
-    plans.append(("exdev", [{"from": 1, "kinds": ["RENAME"], "pre": "tmp/", "act": "fail", "errno": "EXDEV"}]))
+    plans.append(("exdev", [{"from": 1, "kinds": ["RENAME"], "pre": "tmp/", "act": "fail",
+                             "errno": rng.choice(["EXDEV", "EXDEV", "EINTR", "EIO"])}]))
     plans.append(("no_scratch", [{"from": 1, "kinds": ["OPEN_W"], "pre": "tmp/", "act": "fail",
                                   "errno": rng.choice(["EACCES", "ENOSPC", "EROFS"])}]))
     wr = [o.k for o in ops if phm.get(o.k) in ("scratch-write", "after-rename") and o.kind == "WRITE"]
